@@ -2367,6 +2367,78 @@ fn gen_structured(rng: &mut Rng, idx: u64) -> (Vec<u8>, serde_json::Value, Vec<u
                 vec![9],
             )
         }
+        30 => {
+            // cmap format 12 with groups whose startGlyphID is close to u32::MAX
+            let ng = rng.range(1, 3) as usize;
+            let mut groups: Vec<(u32, u32, u32)> = vec![];
+            let mut start = *rng.pick(&[0u32, 0x20, 0x41]);
+            for _ in 0..ng {
+                let len = *rng.pick(&[0u32, 1, 0x5E, 0x1000, 0x10FFFF]);
+                let end = start.saturating_add(len);
+                let sg = *rng.pick(&[0xFFFFFFFFu32, 0xFFFFFFFE, 0xFFFFFFF0, 0xFFFFFF00, 0x7FFFFFFF, 0x80000000, 1, 0xFFFF]);
+                groups.push((start, end, sg));
+                start = end.saturating_add(*rng.pick(&[1u32, 2, 0x100]));
+            }
+            let mut cmap = vec![];
+            be16(&mut cmap, 0);
+            be16(&mut cmap, 1);
+            be16(&mut cmap, 3);
+            be16(&mut cmap, 10);
+            be32(&mut cmap, 12);
+            be16(&mut cmap, 12);
+            be16(&mut cmap, 0);
+            be32(&mut cmap, 16 + 12 * groups.len() as u32);
+            be32(&mut cmap, 0);
+            be32(&mut cmap, groups.len() as u32);
+            for (a, b, c) in &groups {
+                be32(&mut cmap, *a);
+                be32(&mut cmap, *b);
+                be32(&mut cmap, *c);
+            }
+            let mut tabs: Vec<([u8; 4], Vec<u8>)> = simple_glyf_tables().into_iter().filter(|(t, _)| t != b"cmap").collect();
+            tabs.push((*b"cmap", cmap));
+            let refs: Vec<(&[u8; 4], Vec<u8>)> = tabs.iter().map(|(t, b)| (t, b.clone())).collect();
+            (sfnt(&refs), json!({"kind": "cmap12-extreme-groups", "groups (startCharCode, endCharCode, startGlyphID)": groups, "base": "SIMPLE_GLYF with this cmap"}), vec![2, 8])
+        }
+        31 => {
+            // IFT format 2 with numeric entry ids driven to u32::MAX (+-) by 24-bit id deltas
+            let n_big = *rng.pick(&[511u32, 511, 511, 510, 512]);
+            let mut deltas: Vec<i32> = vec![0x7FFFFF; n_big as usize];
+            let mut id: i64 = 0;
+            for d in &deltas {
+                id = id + 1 + *d as i64;
+            }
+            let target: i64 = *rng.pick(&[0xFFFFFFFFi64, 0xFFFFFFFF, 0xFFFFFFFE, 0x1_0000_0000, 0xFFFFFFFD]);
+            let fix = (target - id - 1).clamp(-0x800000, 0x7FFFFF);
+            deltas.push(fix as i32);
+            for _ in 0..rng.range(1, 3) {
+                deltas.push(*rng.pick(&[0i32, 0, -1, 1, -2, 0x7FFFFF, -0x800000]));
+            }
+            let mut t = vec![2u8];
+            be32(&mut t, 0);
+            for k in [1u32, 2, 3, 4] {
+                be32(&mut t, k);
+            }
+            t.push(3);
+            t.extend_from_slice(&(deltas.len() as u32).to_be_bytes()[1..]);
+            be32(&mut t, 43);
+            be32(&mut t, 0);
+            be16(&mut t, 8);
+            t.extend_from_slice(&[b'A', b'B', b'C', b'D', b'E', b'F', 0xc9, 0xa4]);
+            assert_eq!(t.len(), 43);
+            for d in &deltas {
+                t.push(if rng.chance(1, 4) { 0b01000100 } else { 0b00000100 }); // ID_DELTA (| IGNORED)
+                t.extend_from_slice(&d.to_be_bytes()[1..]);
+            }
+            let mut tabs = simple_glyf_tables();
+            tabs.push((*b"IFT ", t));
+            let refs: Vec<(&[u8; 4], Vec<u8>)> = tabs.iter().map(|(t, b)| (t, b.clone())).collect();
+            (
+                sfnt(&refs),
+                json!({"kind": "ift-format2-entry-ids", "entries": format!("{} x id delta 0x7FFFFF, then {:?}", n_big, &deltas[n_big as usize..]), "target_id_after_fixup": target, "base": "SIMPLE_GLYF + this `IFT ` table"}),
+                vec![9, 12],
+            )
+        }
         1..=10 => {
             let (bytes, desc) = build_var_tt(rng);
             (bytes, desc, vec![1, 3, 4, 5, 10, 0])
@@ -2829,7 +2901,7 @@ fn struct_debug() {
         let r = catch_loc(move || intersecting_patches(&FontRef::new(&bytes).unwrap(), &SubsetDefinition::all()).map(|v| v.len()));
         println!("MINIMAL {} (IFT table {} bytes): {:?}", name, n, r.map_err(|t| format!("{} @ {}", t.msg, t.loc)));
     }
-    for idx in [0u64, 32, 64, 1, 2, 11, 12, 13] {
+    for idx in [0u64, 32, 64, 1, 2, 11, 12, 13, 30, 62, 31, 63] {
         let mut rng = Rng::new(idx);
         let (bytes, desc, _) = gen_structured(&mut rng, idx);
         println!("--- {} len={} {}", idx, bytes.len(), &desc.to_string()[..desc.to_string().len().min(300)]);
